@@ -77,6 +77,24 @@ CHECKS = {
                       "deliberate global effects (top-level var/function, globalThis writes) are not generated",
         "assumptions": ["observers cover the state a later program can see; residue that no observer reads and H4 does not report is out of reach"],
     },
+    "C12": {
+        "engines": NATIVE,
+        "level": "exploration",
+        "rule": "programs that expose iteration orders and identity-keyed containers (objects with 0..40 keys incl. delete/re-add, "
+                "for-in, JSON.stringify, Map/Set keyed by objects and functions, Symbol.for registry, sort stability, promises, "
+                "injected time/random providers, console) + statement snippets + holder programs + composed corpus; for each the solo "
+                "trace (terminal step result, value, log, step count) is compared with a repetition in the same process, runs in two "
+                "freshly exec'd processes, step-wise interleavings with 1-3 other interpreters in one thread (round-robin, random "
+                "bursts, instances created/failed/dropped in between) and runs on 4 concurrent threads. Every comparison counts as "
+                "non-trivial; (program, variant) pairs are distinct by construction",
+        "floor": {"quick": 3000, "thorough": 20000},
+        "technique": "runtime monitoring: trace-equality oracle across repetitions, process restarts, step interleavings and threads",
+        "level_text": "Identical source + identical injected providers must give identical step-by-step traces regardless of process, "
+                      "of what other interpreter instances in the process do, and of the thread it runs on.",
+        "level_note": "no data-race detector is used (every instance is !Send and confined to its thread; the threaded variant checks "
+                      "isolation of results, not absence of races); a ThreadSanitizer build was not attempted",
+        "assumptions": ["address-space layout differs between exec'd processes (ASLR on), so pointer-keyed hash orders would differ"],
+    },
     "C13": {
         "engines": {"quick": ["native", "asan", "miri"], "thorough": ["native", "asan", "miri"]},
         "optional_engines": ["asan", "miri"],
